@@ -129,3 +129,38 @@ Proof.
   - destruct (f x); cbn [bind]; [|discriminate]. destruct (mapM f l); cbn [bind]; [|discriminate].
     intros [= <-]. cbn. f_equal. apply IH. reflexivity.
 Qed.
+
+(* ---- decimal rendering ---- *)
+Lemma dec_digits_value f : forall n acc, 0 <= n < 10 ^ Z.of_nat f ->
+  exists k, 0 <= k /\ forall a, fold_left (fun a c => a * 10 + (c - 48)) (dec_digits f n acc) a
+                               = fold_left (fun a c => a * 10 + (c - 48)) acc (a * 10 ^ k + n).
+Proof.
+  induction f as [|f IH]; intros n acc Hn.
+  - exists 0. split; [lia|]. intros a. cbn [dec_digits]. change (10 ^ Z.of_nat 0) with 1 in Hn. f_equal. rewrite Z.pow_0_r. lia.
+  - cbn [dec_digits]. destruct (n <? 10) eqn:E.
+    + exists 1. split; [lia|]. intros a. cbn [fold_left]. f_equal. rewrite Z.pow_1_r. lia.
+    + rewrite Nat2Z.inj_succ, Z.pow_succ_r in Hn by lia.
+      destruct (IH (n / 10) ((48 + n mod 10) :: acc)) as (k & Hk & Hv); [lia|].
+      exists (k + 1). split; [lia|]. intros a. rewrite Hv. cbn [fold_left]. f_equal.
+      rewrite Z.pow_add_r, Z.pow_1_r by lia. lia.
+Qed.
+Lemma int_of_str_of_nonneg n : 0 <= n -> int_of_digits (str_of_nonneg n) = n.
+Proof.
+  intros Hn. unfold int_of_digits, str_of_nonneg.
+  destruct (dec_digits_value (S (Z.to_nat (Z.log2 (n + 1)))) n []) as (k & Hk & Hv).
+  - split; [assumption|]. pose proof (Z.log2_nonneg (n + 1)) as Hl. pose proof (Z.log2_spec (n + 1) ltac:(lia)) as [_ Hs].
+    rewrite Nat2Z.inj_succ, Z2Nat.id by assumption.
+    assert (2 ^ Z.succ (Z.log2 (n + 1)) <= 10 ^ Z.succ (Z.log2 (n + 1))) by (apply Z.pow_le_mono_l; lia). lia.
+  - rewrite Hv. cbn [fold_left]. lia.
+Qed.
+Lemma str_of_nonneg_eqb ks lit n :
+  0 <= ks -> 0 <= n -> str_of_nonneg n = lit -> list_eqb (str_of_nonneg ks) lit = (ks =? n).
+Proof.
+  intros Hk Hn Hl. destruct (ks =? n) eqn:E.
+  - assert (ks = n) as -> by lia. rewrite Hl. apply list_eqb_refl.
+  - destruct (list_eqb (str_of_nonneg ks) lit) eqn:F; [|reflexivity]. apply list_eqb_eq in F. rewrite <- Hl in F.
+    apply (f_equal int_of_digits) in F. rewrite !int_of_str_of_nonneg in F by assumption. lia.
+Qed.
+Lemma list_eqb_app_same p x y : list_eqb (p ++ x) (p ++ y) = list_eqb x y.
+Proof. induction p as [|c p IH]; [reflexivity|]. cbn [app list_eqb]. rewrite Z.eqb_refl. exact IH. Qed.
+
